@@ -2,7 +2,7 @@
    ExtrOcamlBasic only: bool, option, list, prod, unit, sumbool map to OCaml's; Z, N, positive,
    nat stay the extracted inductives.  No Extract Constant of ours. *)
 From Coq Require Import Extraction ExtrOcamlBasic.
-From KV Require Import DetectProofs Base FP Params ParamsProofs Weave WeaveProofs WeaveCheck Sort Detect Api Cmp Bpm BpmBits Formats Cli Kernels Pipeline.
+From KV Require Import DetectDefs Base FP Params ParamsDoc Weave WeaveProofs WeaveCheck Sort Detect Api Cmp Bpm BpmBits Formats Cli Kernels Pipeline.
 Extraction Language OCaml.
 Set Extraction Optimize.
 Extraction "../ocaml/kvmodel.ml"
